@@ -268,19 +268,39 @@ func (this *DatasetManager) processSnapshot(data []byte) error {
 		return err
 	}
 
+	// The snapshot replaces the catalogue: datasets it does not contain were deleted in the meantime
+	inSnapshot := make(map[uuid.UUID]struct{})
 	for _, dataset := range dmSnapshot.Datasets {
 		id, err := uuid.FromBytes(dataset.GetId())
 		if err != nil {
 			return err
 		}
-		if _, exists := this.datasets[id]; !exists {
-			this.datasets[id], err = newDataset(id, *dataset, this.raftWalDB, this.raftTransport, this.clusterConn, this)
-			if err != nil {
-				return err
+		inSnapshot[id] = struct{}{}
+	}
+	for id, dataset := range this.datasets {
+		if _, exists := inSnapshot[id]; !exists {
+			for _, partition := range dataset.partitions {
+				this.allocator.unwatch(partition.id)
 			}
-			for _, partition := range this.datasets[id].partitions {
-				this.allocator.watch(partition)
-			}
+			delete(this.datasets, id)
+		}
+	}
+
+	for _, dataset := range dmSnapshot.Datasets {
+		id, err := uuid.FromBytes(dataset.GetId())
+		if err != nil {
+			return err
+		}
+		if existing, exists := this.datasets[id]; exists {
+			existing.syncPartitionNodes(dataset)
+			continue
+		}
+		this.datasets[id], err = newDataset(id, *dataset, this.raftWalDB, this.raftTransport, this.clusterConn, this)
+		if err != nil {
+			return err
+		}
+		for _, partition := range this.datasets[id].partitions {
+			this.allocator.watch(partition)
 		}
 	}
 	return nil
